@@ -80,6 +80,17 @@ class Ctx:
             return
         if z3.is_true(goal):
             return
+        only = self.contract.ghost.get('only_kinds') if self.contract is not None else None
+        if only and not any(kind.startswith(k) for k in only):
+            # a view that states one kind of obligation only (e.g. 'forward'): the safety of the
+            # other statements is the business of the function's other views; the path continues
+            # as if the statement did not raise
+            if assume:
+                if not self.guards:
+                    state.assume(goal)
+                else:
+                    state.assume(z3.Implies(z3.And(*self.guards), goal))
+            return
         if kind in IMPLICIT_EXCEPTIONS and assume and self.contract is not None and \
                 any(exc_is(kind, exc) for exc in self.contract.raises):
             # an implicit exception of a type the contract lists in `raises` is a raise *path*
